@@ -1404,16 +1404,22 @@ def m_map_entry(e, st, a, ctx): return T([a[0], a[1]], 'map::Entry')
 @model(r'std::collections::hash_map::Entry::<.*>::or_insert')
 def m_entry_or_insert(e, st, a, ctx):
     ent = a[0]; mp_, key = ent.f
-    mv = as_map(e, st, mp_)
-    found, old, hits = map_lookup(e, st, mv, key)
-    ents = list(mv.ents)
-    keyv = as_str(e, st, key) if not _is_scalar(key) else key
-    if found is not True: ents.append((simp(znot(found)), keyv, a[1]))
-    e.store(st, mp_, M(ents))
-    if not isinstance(mp_, P): raise Abort('entry through non-place pointer')
-    alts = [(c, P(mp_.fid, mp_.loc, mp_.proj + (('m', i),))) for i, c in enumerate(hits) if c is not False]
-    if found is not True: alts.append((simp(znot(found)), P(mp_.fid, mp_.loc, mp_.proj + (('m', len(ents) - 1),))))
-    return alts[0][1] if len(alts) == 1 else U(alts)
+    out = []
+    for c0, pp in ptr_alts(mp_):
+        if c0 is False: continue
+        mv = e.read(st, ('mem', pp.fid, pp.loc, list(pp.proj)))
+        if not isinstance(mv, M): mv = as_map(e, st, pp)
+        found, old, hits = map_lookup(e, st, mv, key)
+        ents = list(mv.ents)
+        keyv = as_str(e, st, key) if not _is_scalar(key) else key
+        if found is not True: ents.append((simp(znot(found)), keyv, a[1]))
+        new_m = M(ents)
+        e.write(st, ('mem', pp.fid, pp.loc, list(pp.proj)), new_m if c0 is True else merge(c0, new_m, mv))
+        for i, c in enumerate(hits):
+            if c is not False: out.append((zand(c0, c), P(pp.fid, pp.loc, pp.proj + (('m', i),))))
+        if found is not True: out.append((zand(c0, simp(znot(found))), P(pp.fid, pp.loc, pp.proj + (('m', len(ents) - 1),))))
+    if not out: raise Abort('entry().or_insert on an unreachable map pointer')
+    return out[0][1] if len(out) == 1 else U(out)
 
 
 @model(r'core::str::<impl str>::split::<.*>')
